@@ -10,7 +10,7 @@ RULE = ("generated task DAGs (structured shared-dependency families, all DAGs on
 
 def main(tier, n=None):
     plan = [("deps", 900, 40000, None, 8), ("wide", 300, 10000, None, 8), ("deps", 150, 6000, list(sched.schedsim.LINE_STRATEGIES), 7)]
-    rep, code = S.run(PROP, tier, "exploration", RULE, plan, ["c01_dep_pairs", "c01_combine_starts"], n)
+    rep, code = S.run(PROP, tier, "exploration", RULE, plan, ["c01_dep_pairs", "c01_combine_starts", "c01_e1_dep_pairs"], n, e1=("deps", 60, 1500, 7))
     return code
 
 
